@@ -3,6 +3,7 @@
 Require Import AT.Model.Base AT.Model.Heap AT.Model.Mutate AT.Spec.MutSpec.
 Require AT.Proofs.MutInv AT.Proofs.MutHistory AT.Proofs.MutParent AT.Proofs.MutDelRun AT.Proofs.MutSetRun AT.Proofs.MutAssert.
 Import AT.Proofs.MutInv AT.Proofs.MutHistory.
+Require AT.Model.Rose AT.Model.Abs AT.Spec.IterSpec AT.Proofs.PickleProofs AT.Proofs.ForestCover.
 
 (** One step: ANY call (the three assignments and the constructors), with ANY
     arguments naming existing nodes or non-nodes (valid or not), under ANY
@@ -93,6 +94,50 @@ Print Assumptions C01_assertions.
 
 (** non-vacuity: a two-tree forest satisfies the invariant, and a refused,
     half-rolled-back call on it is covered by the hypotheses *)
+(** "one consistent forest", as trees: in a consistent link state every node n
+    lies in the unfolding (children lists followed downwards, AT.Model.Abs) of
+    exactly one parentless node - the top of n's ancestor chain - so the
+    unfoldings of the roots partition the node set; with the history theorem
+    this holds after every operation history.  [root_of n l] is the last
+    element of n's ancestor chain l (n itself when l is empty) *)
+Theorem C01_forest_partition : forall h, Inv h -> forall n l, chain h n l ->
+  let r := AT.Proofs.PickleProofs.root_of n l in
+  parent h r = None /\
+  In n (AT.Spec.IterSpec.preorder (AT.Model.Abs.tree_of h r)) /\
+  forall r', parent h r' = None -> In n (AT.Spec.IterSpec.preorder (AT.Model.Abs.tree_of h r')) -> r' = r.
+Proof. exact AT.Proofs.ForestCover.forest_partition. Qed.
+Print Assumptions C01_forest_partition.
+
+(** ... at every point of every operation history (each call with its own
+    arguments, fault oracle, assertion setting and fuel) that starts from k
+    fresh nodes: every node belongs to the unfolding of exactly one root *)
+Theorem C01_forest_after_every_history : forall typed cs k, valid_history typed (init k) cs ->
+  let h := fold_left (step typed) cs (init k) in
+  forall n, exists r, parent h r = None /\
+    In n (AT.Spec.IterSpec.preorder (AT.Model.Abs.tree_of h r)) /\
+    forall r', parent h r' = None -> In n (AT.Spec.IterSpec.preorder (AT.Model.Abs.tree_of h r')) -> r' = r.
+Proof.
+  intros typed cs k V h n.
+  assert (Ih : Inv h) by (apply history_inv; [apply init_inv|exact V]).
+  destruct (inv_acyclic _ Ih n) as [l C].
+  exists (AT.Proofs.PickleProofs.root_of n l). exact (AT.Proofs.ForestCover.forest_partition h Ih n l C).
+Qed.
+Print Assumptions C01_forest_after_every_history.
+
+(** the unfolding below a node never leaves that node's tree, and contains the
+    children of everything it contains *)
+Theorem C01_unfolding_stays_in_tree : forall h, Inv h -> forall r x lr lx,
+  In x (AT.Spec.IterSpec.preorder (AT.Model.Abs.tree_of h r)) -> chain h r lr -> chain h x lx ->
+  AT.Proofs.PickleProofs.root_of x lx = AT.Proofs.PickleProofs.root_of r lr.
+Proof. exact AT.Proofs.ForestCover.same_tree. Qed.
+Print Assumptions C01_unfolding_stays_in_tree.
+
+Theorem C01_unfolding_closed_under_children : forall h, Inv h -> forall r x c,
+  In x (AT.Spec.IterSpec.preorder (AT.Model.Abs.tree_of h r)) -> In c (children h x) ->
+  In c (AT.Spec.IterSpec.preorder (AT.Model.Abs.tree_of h r)).
+Proof. exact AT.Proofs.ForestCover.pre_closed. Qed.
+Print Assumptions C01_unfolding_closed_under_children.
+
 Example C01_example :
   let h := attach_links (attach_links (init 4) 1 0) 3 2 in
   Inv h /\ valid_op (length h) (SetChildren 0 (CList [VNode 3; VNode 0])) /\
